@@ -12,11 +12,16 @@ if ! git apply --whitespace=nowarn "$SD/patch.diff" 2>/tmp/apply.err; then
   if ! patch -p1 -s < "$SD/patch.diff" 2>>/tmp/apply.err; then echo "APPLY-FAILED $(head -3 /tmp/apply.err)"; rm -rf "$MUT"; exit 3; fi
 fi
 echo "applied: $(grep -c '^[-+][^-+]' "$SD/patch.diff") changed lines in $(grep -c '^diff' "$SD/patch.diff") file(s)"
-DEMO=$(ls "$SD"/demo.py "$SD"/test_demo.py 2>/dev/null | head -1)
+# the demo runs from the same relative place inside the mutated tree (many demos derive the library root from __file__)
+REL="_seed/$(basename "$SD")"
+mkdir -p "$MUT/_seed"; cp -r "$(dirname "$SD")"/*.py "$MUT/_seed/" 2>/dev/null; cp -r "$SD" "$MUT/$REL"
+DEMO=$(ls "$MUT/$REL"/demo.py "$MUT/$REL"/test_demo.py 2>/dev/null | head -1)
 if [ -n "$DEMO" ]; then
   if [[ "$DEMO" == *test_demo.py ]]; then RUN="-m pytest -q -p no:cacheprovider -x"; else RUN=""; fi
-  (cd "$MUT" && PYTHONPATH="$MUT" JAX_PLATFORMS=cpu timeout 600 /venv/bin/python $RUN "$DEMO" >/tmp/demo_mut.out 2>&1); a=$?
-  (cd /repo && PYTHONPATH=/repo JAX_PLATFORMS=cpu timeout 600 /venv/bin/python $RUN "$DEMO" >/tmp/demo_clean.out 2>&1); b=$?
+  (cd "$MUT" && PYTHONPATH="$MUT" JAX_PLATFORMS=cpu timeout 900 /venv/bin/python $RUN "$DEMO" >/tmp/demo_mut.out 2>&1); a=$?
+  CLEAN=/tmp/clean-$$; rm -rf "$CLEAN"; mkdir -p "$CLEAN"; git -C /repo archive HEAD | tar -x -C "$CLEAN"; mkdir -p "$CLEAN/_seed"; cp -r "$(dirname "$SD")"/*.py "$CLEAN/_seed/" 2>/dev/null; cp -r "$SD" "$CLEAN/$REL"
+  (cd "$CLEAN" && PYTHONPATH="$CLEAN" JAX_PLATFORMS=cpu timeout 900 /venv/bin/python $RUN "$CLEAN/$REL/$(basename "$DEMO")" >/tmp/demo_clean.out 2>&1); b=$?
+  rm -rf "$CLEAN"
   echo "demo: with-change exit=$a  clean exit=$b"
 fi
 if [ "${RUN_TESTS:-0}" != "0" ]; then
